@@ -10,6 +10,7 @@ import LccModel.Model.Loader
 import LccModel.Model.LoaderSpec
 import LccModel.Model.DirScan
 import LccModel.Model.ParamSource
+import LccModel.Model.Reload
 open Lean LccModel LccModel.Proto LccModel.Loader LccModel.DirScan
 
 def getInt (j : Json) (k : String) : Except String Int := do
@@ -275,6 +276,17 @@ def handle (j : Json) : Except String Json := do
     let ms := scanFiles fs
     let a := answer (loadRawFiles fs) (declFiles (stripModules ms)) (declFiles ms) (noDunderModules ms) none
     pure (a.setObjVal! "scan" (Json.arr (scanJ [] (.mk "suites" fs [])).toArray))
+  | "seq" =>
+    -- several loads in ONE process (`Model/Reload.lean`): each step = the path string handed to the loader and the directory
+    -- as it is on disk at that moment; the registry `sys.modules` is threaded through the steps
+    let steps ← (← getArrD j "steps").mapM (fun s => do
+      let r ← parseRawDir (← s.getObjVal? "dir")
+      pure (← getStr s "root", scanDir r))
+    let run := LccModel.Reload.runLoads {} steps
+    let answers := (steps.zip run.2).map (fun ((_, d), res) =>
+      answer res (declDir (stripDir d)) (declDir d) (noDunderDir d) none)
+    pure (Json.mkObj [("steps", Json.arr answers.toArray),
+                      ("registered", Json.arr (run.1.sysModules.map (fun e => Json.str e.1)).toArray)])
   | "scan" =>
     -- the decision alone, on a list of names
     let names ← (← getArrD j "names").mapM (fun n => n.getStr?)
